@@ -477,3 +477,310 @@ Qed.
 
 Lemma check_scope_prefix_converged o n ctx : converged (check_scope_prefix o n ctx) = true.
 Proof. unfold check_scope_prefix. destruct (negb _); reflexivity. Qed.
+
+(** * Small facts about single diagnostics *)
+Lemma has_error_if_err (c : bool) r m : has_error (if c then [err r m] else []) = c.
+Proof. destruct c; reflexivity. Qed.
+Lemma has_error_if_warning (c : bool) r m : has_error (if c then [warning r m] else []) = false.
+Proof. destruct c; reflexivity. Qed.
+Lemma converged_if_err (c : bool) r m : converged (if c then [err r m] else []) = true.
+Proof. destruct c; reflexivity. Qed.
+Lemma converged_if_warning (c : bool) r m : converged (if c then [warning r m] else []) = true.
+Proof. destruct c; reflexivity. Qed.
+
+Lemma requiredness_differs o n :
+  negb (Bool.eqb (is_required o) (is_required n)) = true
+  <-> ~ (f_mod o = Required <-> f_mod n = Required).
+Proof.
+  unfold is_required. destruct (f_mod o), (f_mod n); cbn; split; intro H; try discriminate;
+    try reflexivity; try (exfalso; apply H; split; intro; (reflexivity || discriminate)).
+  - intros [H1 _]. specialize (H1 eq_refl). discriminate.
+  - intros [H1 _]. specialize (H1 eq_refl). discriminate.
+  - intros [_ H1]. specialize (H1 eq_refl). discriminate.
+  - intros [_ H1]. specialize (H1 eq_refl). discriminate.
+Qed.
+
+Lemma not_optional o : negb (is_optional o) = true <-> f_mod o <> Optional.
+Proof. unfold is_optional. destruct (f_mod o); cbn; split; intro H; try discriminate; try reflexivity; try contradiction. Qed.
+Lemma required_iff n : is_required n = true <-> f_mod n = Required.
+Proof. unfold is_required. destruct (f_mod n); split; intro; try discriminate; reflexivity. Qed.
+
+(** * Fields *)
+Section FieldProofs.
+  Variables po pn : program.
+
+  Lemma Common_SameType t t' : Common po pn 0 t 0 t' <-> SameType po pn t t'.
+  Proof. reflexivity. Qed.
+
+  Lemma check_fields_error fuel olds news ctx :
+    converged (check_fields fuel po pn olds news ctx) = true ->
+    (has_error (check_fields fuel po pn olds news ctx) = true <-> FieldsBreak po pn olds news).
+  Proof.
+    unfold check_fields. intro Hc. rewrite converged_app, andb_true_iff in Hc. destruct Hc as [Hc _].
+    rewrite converged_flat_map in Hc.
+    rewrite has_error_app, orb_true_iff, !has_error_flat_map. split.
+    - intros [(o & Ho & He) | (n & Hn & He)].
+      + apply (In_dedup_last Z.eqb f_id zeqb_true_iff) in Ho. specialize (Hc o (proj2 (In_dedup_last Z.eqb f_id zeqb_true_iff olds o) Ho)).
+        destruct (lookup_last Z.eqb f_id news (f_id o)) as [n|] eqn:El.
+        * apply (lookup_last_Some Z.eqb f_id zeqb_true_iff) in El.
+          rewrite !has_error_app, has_error_if_err, !has_error_if_warning, !orb_false_r, orb_true_iff in He.
+          rewrite converged_app, andb_true_iff in Hc. destruct Hc as [Hc _].
+          destruct He as [He | He].
+          -- eapply FB_retyped; eauto. apply (check_type_error _ _ _ _ _ _ _ _ Hc). exact He.
+          -- eapply FB_requiredness; eauto. apply requiredness_differs. exact He.
+        * apply (lookup_last_None Z.eqb f_id zeqb_true_iff) in El.
+          rewrite has_error_if_err in He. eapply FB_removed; eauto. apply not_optional; exact He.
+      + apply (In_dedup_last Z.eqb f_id zeqb_true_iff) in Hn.
+        destruct (lookup_last Z.eqb f_id olds (f_id n)) as [o|] eqn:El; [discriminate|].
+        apply (lookup_last_None Z.eqb f_id zeqb_true_iff) in El.
+        rewrite has_error_app, has_error_if_warning, has_error_if_err in He. cbn [orb] in He.
+        eapply FB_added_required; eauto. apply required_iff; exact He.
+    - intros [o n Ho Hn Ht | o n Ho Hn Hr | o Ho Ha Hm | n Hn Ha Hm].
+      + left. exists o. pose proof (proj2 (In_dedup_last Z.eqb f_id zeqb_true_iff olds o) Ho) as Hi.
+        split; [exact Hi|]. specialize (Hc o Hi).
+        apply (lookup_last_Some Z.eqb f_id zeqb_true_iff) in Hn. rewrite Hn in *.
+        rewrite converged_app, andb_true_iff in Hc. destruct Hc as [Hc _].
+        rewrite has_error_app. apply orb_true_iff. left.
+        apply (check_type_error _ _ _ _ _ _ _ _ Hc). exact Ht.
+      + left. exists o. split; [apply (In_dedup_last Z.eqb f_id zeqb_true_iff); exact Ho|].
+        apply (lookup_last_Some Z.eqb f_id zeqb_true_iff) in Hn. rewrite Hn.
+        rewrite !has_error_app, has_error_if_err. apply requiredness_differs in Hr. rewrite Hr.
+        rewrite orb_true_r. reflexivity.
+      + left. exists o. split; [apply (In_dedup_last Z.eqb f_id zeqb_true_iff); exact Ho|].
+        apply (lookup_last_None Z.eqb f_id zeqb_true_iff) in Ha. rewrite Ha.
+        rewrite has_error_if_err. apply not_optional; exact Hm.
+      + right. exists n. split; [apply (In_dedup_last Z.eqb f_id zeqb_true_iff); exact Hn|].
+        apply (lookup_last_None Z.eqb f_id zeqb_true_iff) in Ha. rewrite Ha.
+        rewrite has_error_app, has_error_if_warning, has_error_if_err. apply required_iff; exact Hm.
+  Qed.
+End FieldProofs.
+
+(** * Scopes, enums, structs, services *)
+Lemma is_nil_iff t : is_nil t = true <-> t = TNil.
+Proof. destruct t; cbn; split; intro; try discriminate; reflexivity. Qed.
+Lemma is_empty_list_iff {A} (l : list A) : is_empty_list l = true <-> l = [].
+Proof. destruct l; cbn; split; intro; try discriminate; reflexivity. Qed.
+Lemma not_empty_list_iff {A} (l : list A) : negb (is_empty_list l) = true <-> l <> [].
+Proof. destruct l; cbn; split; intro H; try discriminate; try reflexivity; try contradiction. Qed.
+Lemma is_empty_iff (b : bytes) : is_empty b = true <-> b = [].
+Proof. destruct b; cbn; split; intro; try discriminate; reflexivity. Qed.
+Lemma bool_neq_iff (a b : bool) : negb (Bool.eqb a b) = true <-> a <> b.
+Proof. destruct a, b; cbn; split; intro H; try discriminate; try reflexivity; try contradiction. Qed.
+
+Section DeclProofs.
+  Variables po pn : program.
+
+  Notation LS := (lookup_last_Some beqb _ beqb_true_iff).
+  Notation LN := (lookup_last_None beqb _ beqb_true_iff).
+  Notation ZLS := (lookup_last_Some Z.eqb _ zeqb_true_iff).
+  Notation ZLN := (lookup_last_None Z.eqb _ zeqb_true_iff).
+
+  Lemma check_operations_error fuel olds news ctx :
+    converged (check_operations fuel po pn olds news ctx) = true ->
+    (has_error (check_operations fuel po pn olds news ctx) = true <->
+     exists o, In o olds /\
+       (Absent o_name news (o_name o)
+        \/ exists o', Denotes o_name news (o_name o) o' /\ ~ SameType po pn (o_type o) (o_type o'))).
+  Proof.
+    unfold check_operations. intro Hc. rewrite converged_flat_map in Hc. rewrite has_error_flat_map.
+    split; intros (o & Ho & H); exists o; (split; [exact Ho|]); specialize (Hc o Ho).
+    - destruct (lookup_last beqb o_name news (o_name o)) as [n|] eqn:El.
+      + apply LS in El. right. exists n. split; auto.
+        apply (check_type_error _ _ _ _ _ _ _ _ Hc); exact H.
+      + left. apply LN in El; exact El.
+    - destruct H as [Ha | (n & Hn & Ht)].
+      + apply LN in Ha. rewrite Ha. reflexivity.
+      + apply LS in Hn. rewrite Hn in *. apply (check_type_error _ _ _ _ _ _ _ _ Hc). exact Ht.
+  Qed.
+
+  Lemma check_scopes_error fuel :
+    converged (check_scopes fuel po pn) = true ->
+    (has_error (check_scopes fuel po pn) = true <-> ScopesBreak po pn).
+  Proof.
+    unfold check_scopes. intro Hc. rewrite converged_flat_map in Hc. rewrite has_error_flat_map. split.
+    - intros (s & Hs & H). specialize (Hc s Hs).
+      destruct (lookup_last beqb sc_name (p_scopes pn) (sc_name s)) as [s'|] eqn:El.
+      + apply LS in El. rewrite has_error_app, orb_true_iff in H.
+        rewrite converged_app, andb_true_iff in Hc. destruct Hc as [_ Hc]. destruct H as [H|H].
+        * eapply SB_prefix; eauto. eapply check_scope_prefix_error; eauto.
+        * apply (check_operations_error _ _ _ _ Hc) in H as (o & Ho & [Ha | (o' & Ho' & Ht)]).
+          -- eapply SB_operation_removed; eauto.
+          -- eapply SB_operation_retyped; eauto.
+      + apply LN in El. eapply SB_scope_removed; eauto.
+    - intros [s Hs Ha | s s' Hs Hd Hp | s s' o Hs Hd Ho Ha | s s' o o' Hs Hd Ho Ho' Ht];
+        exists s; (split; [exact Hs|]); specialize (Hc s Hs).
+      + apply LN in Ha. rewrite Ha. reflexivity.
+      + apply LS in Hd. rewrite Hd. rewrite has_error_app. apply orb_true_iff. left.
+        apply check_scope_prefix_error. exact Hp.
+      + apply LS in Hd. rewrite Hd in *. rewrite has_error_app. apply orb_true_iff. right.
+        rewrite converged_app, andb_true_iff in Hc. destruct Hc as [_ Hc].
+        apply (check_operations_error _ _ _ _ Hc). exists o. split; auto.
+      + apply LS in Hd. rewrite Hd in *. rewrite has_error_app. apply orb_true_iff. right.
+        rewrite converged_app, andb_true_iff in Hc. destruct Hc as [_ Hc].
+        apply (check_operations_error _ _ _ _ Hc). exists o. split; auto. right. exists o'. auto.
+  Qed.
+
+  Lemma check_namespaces_no_error : has_error (check_namespaces po pn) = false.
+  Proof.
+    unfold check_namespaces. apply not_true_is_false. rewrite has_error_flat_map.
+    intros (o & _ & H). destruct (lookup_last _ _ _ _); [|discriminate].
+    rewrite has_error_if_warning in H. discriminate.
+  Qed.
+  Lemma check_namespaces_converged : converged (check_namespaces po pn) = true.
+  Proof.
+    unfold check_namespaces. apply converged_flat_map. intros o _.
+    destruct (lookup_last _ _ _ _); [apply converged_if_warning | reflexivity].
+  Qed.
+
+  Lemma check_constants_no_error fuel : has_error (check_constants fuel po pn) = false.
+  Proof.
+    unfold check_constants. apply not_true_is_false. rewrite has_error_flat_map.
+    intros (o & _ & H). destruct (lookup_last _ _ _ _); [|discriminate].
+    rewrite has_error_app, check_type_warn_no_error, has_error_if_warning in H. discriminate.
+  Qed.
+
+  Lemma check_enum_values_error olds news ctx :
+    has_error (check_enum_values olds news ctx) = true <->
+    exists v, In v olds /\ Absent ev_value news (ev_value v).
+  Proof.
+    unfold check_enum_values. rewrite has_error_flat_map.
+    split; intros (v & Hv & H); exists v; (split; [exact Hv|]).
+    - destruct (lookup_last Z.eqb ev_value news (ev_value v)) as [n|] eqn:El.
+      + rewrite has_error_if_warning in H. discriminate.
+      + apply ZLN in El. exact El.
+    - apply ZLN in H. rewrite H. reflexivity.
+  Qed.
+  Lemma check_enum_values_converged olds news ctx : converged (check_enum_values olds news ctx) = true.
+  Proof.
+    unfold check_enum_values. apply converged_flat_map. intros o _.
+    destruct (lookup_last _ _ _ _); [apply converged_if_warning | reflexivity].
+  Qed.
+
+  Lemma check_enums_error : has_error (check_enums po pn) = true <-> EnumsBreak po pn.
+  Proof.
+    unfold check_enums. rewrite has_error_flat_map. split.
+    - intros (e & He & H). destruct (lookup_last beqb e_name (p_enums pn) (e_name e)) as [e'|] eqn:El;
+        [|discriminate].
+      apply LS in El. apply check_enum_values_error in H as (v & Hv & Ha). eapply EB_value_removed; eauto.
+    - intros [e e' v He Hd Hv Ha]. exists e. split; [exact He|]. apply LS in Hd. rewrite Hd.
+      apply check_enum_values_error. eauto.
+  Qed.
+  Lemma check_enums_converged : converged (check_enums po pn) = true.
+  Proof.
+    unfold check_enums. apply converged_flat_map. intros o _.
+    destruct (lookup_last _ _ _ _); [apply check_enum_values_converged | reflexivity].
+  Qed.
+
+  Lemma check_struct_like_error fuel k :
+    converged (check_struct_like fuel po pn (structs_of k po) (structs_of k pn)) = true ->
+    (has_error (check_struct_like fuel po pn (structs_of k po) (structs_of k pn)) = true
+     <-> StructsBreak po pn k).
+  Proof.
+    unfold check_struct_like. intro Hc. rewrite converged_flat_map in Hc. rewrite has_error_flat_map. split.
+    - intros (s & Hs & H). specialize (Hc s Hs).
+      destruct (lookup_last beqb s_name (structs_of k pn) (s_name s)) as [s'|] eqn:El.
+      + apply LS in El. eapply STB_fields; eauto. apply (check_fields_error _ _ _ _ _ _ Hc). exact H.
+      + apply LN in El. eapply STB_removed; eauto.
+    - intros [s Hs Ha | s s' Hs Hd Hf]; exists s; (split; [exact Hs|]); specialize (Hc s Hs).
+      + apply LN in Ha. rewrite Ha. reflexivity.
+      + apply LS in Hd. rewrite Hd in *. apply (check_fields_error _ _ _ _ _ _ Hc). exact Hf.
+  Qed.
+
+  Lemma check_method_error fuel o n mctx :
+    converged (check_method fuel po pn o n mctx) = true ->
+    (has_error (check_method fuel po pn o n mctx) = true <-> MethodBreak po pn o n).
+  Proof.
+    unfold check_method. intro Hc.
+    rewrite !converged_app, !andb_true_iff in Hc. destruct Hc as (_ & Hr & Ha & He & _ & _).
+    rewrite !has_error_app, !has_error_if_err, !orb_true_iff, !andb_true_iff.
+    rewrite bool_neq_iff, !is_nil_iff, !is_empty_list_iff, !not_empty_list_iff.
+    rewrite (check_type_error _ _ _ _ _ _ _ _ Hr), (check_fields_error _ _ _ _ _ _ Ha),
+      (check_fields_error _ _ _ _ _ _ He).
+    split.
+    - intros [H | [H | [H | [H | [[[H1 H2] H3] | [[H1 H2] H3]]]]]].
+      + apply MB_oneway; exact H.
+      + apply MB_return; exact H.
+      + apply MB_arguments; exact H.
+      + apply MB_exceptions; exact H.
+      + apply MB_exceptions_added_to_void; assumption.
+      + apply MB_exceptions_removed_from_void; assumption.
+    - intros [H | H | H | H | H1 H2 H3 | H1 H2 H3]; tauto.
+  Qed.
+
+  Lemma check_service_methods_error fuel olds news ctx :
+    converged (check_service_methods fuel po pn olds news ctx) = true ->
+    (has_error (check_service_methods fuel po pn olds news ctx) = true <->
+     exists m, In m olds /\
+       (Absent m_name news (m_name m)
+        \/ exists m', Denotes m_name news (m_name m) m' /\ MethodBreak po pn m m')).
+  Proof.
+    unfold check_service_methods. intro Hc. rewrite converged_flat_map in Hc. rewrite has_error_flat_map.
+    split; intros (m & Hm & H); exists m; (split; [exact Hm|]); specialize (Hc m Hm).
+    - destruct (lookup_last beqb m_name news (m_name m)) as [m'|] eqn:El.
+      + apply LS in El. right. exists m'. split; auto. apply (check_method_error _ _ _ _ Hc); exact H.
+      + left. apply LN in El; exact El.
+    - destruct H as [Ha | (m' & Hd & Hb)].
+      + apply LN in Ha. rewrite Ha. reflexivity.
+      + apply LS in Hd. rewrite Hd in *. apply (check_method_error _ _ _ _ Hc). exact Hb.
+  Qed.
+
+  Lemma extends_changed_iff o n :
+    negb (is_empty (sv_extends o)) && negb (beqb (sv_extends o) (sv_extends n)) = true
+    <-> sv_extends o <> [] /\ sv_extends o <> sv_extends n.
+  Proof.
+    rewrite andb_true_iff, !negb_true_iff, beqb_false_iff.
+    destruct (sv_extends o); cbn [is_empty]; split; intros [H1 H2]; split; auto; try discriminate.
+    contradiction.
+  Qed.
+
+  Lemma check_services_error fuel :
+    converged (check_services fuel po pn) = true ->
+    (has_error (check_services fuel po pn) = true <-> ServicesBreak po pn).
+  Proof.
+    unfold check_services. intro Hc. rewrite converged_flat_map in Hc. rewrite has_error_flat_map. split.
+    - intros (s & Hs & H). specialize (Hc s Hs).
+      destruct (lookup_last beqb sv_name (p_services pn) (sv_name s)) as [s'|] eqn:El.
+      + apply LS in El. rewrite has_error_app, has_error_if_err, orb_true_iff in H.
+        rewrite converged_app, andb_true_iff in Hc. destruct Hc as [_ Hc]. destruct H as [H|H].
+        * apply extends_changed_iff in H as [H1 H2]. eapply SVB_extends; eauto.
+        * apply (check_service_methods_error _ _ _ _ Hc) in H as (m & Hm & [Ha | (m' & Hd & Hb)]).
+          -- eapply SVB_method_removed; eauto.
+          -- eapply SVB_method; eauto.
+      + apply LN in El. eapply SVB_removed; eauto.
+    - intros [s Hs Ha | s s' Hs Hd H1 H2 | s s' m Hs Hd Hm Ha | s s' m m' Hs Hd Hm Hd' Hb];
+        exists s; (split; [exact Hs|]); specialize (Hc s Hs).
+      + apply LN in Ha. rewrite Ha. reflexivity.
+      + apply LS in Hd. rewrite Hd. rewrite has_error_app, has_error_if_err. apply orb_true_iff. left.
+        apply extends_changed_iff. auto.
+      + apply LS in Hd. rewrite Hd in *. rewrite has_error_app. apply orb_true_iff. right.
+        rewrite converged_app, andb_true_iff in Hc. destruct Hc as [_ Hc].
+        apply (check_service_methods_error _ _ _ _ Hc). exists m. split; auto.
+      + apply LS in Hd. rewrite Hd in *. rewrite has_error_app. apply orb_true_iff. right.
+        rewrite converged_app, andb_true_iff in Hc. destruct Hc as [_ Hc].
+        apply (check_service_methods_error _ _ _ _ Hc). exists m. split; auto. right. exists m'. auto.
+  Qed.
+
+  (** * The audit fails iff the new program contains a documented breaking change *)
+  Theorem audit_fails_iff_breaking fuel :
+    converged (audit fuel po pn) = true ->
+    (audit_fails fuel po pn = true <-> Breaking po pn).
+  Proof.
+    unfold audit_fails, audit. intro Hc.
+    rewrite !converged_app, !andb_true_iff in Hc.
+    destruct Hc as (Hsc & _ & _ & _ & Hst & Hex & Hun & Hsv).
+    rewrite !has_error_app, check_namespaces_no_error, check_constants_no_error. cbn [orb].
+    rewrite !orb_true_iff.
+    rewrite (check_scopes_error _ Hsc), check_enums_error,
+      (check_struct_like_error _ KStruct Hst), (check_struct_like_error _ KException Hex),
+      (check_struct_like_error _ KUnion Hun), (check_services_error _ Hsv).
+    split.
+    - intros [H | [H | [H | [H | [H | H]]]]].
+      + apply B_scopes; exact H.
+      + apply B_enums; exact H.
+      + eapply B_structs; exact H.
+      + eapply B_structs; exact H.
+      + eapply B_structs; exact H.
+      + apply B_services; exact H.
+    - intros [H | H | k H | H]; [tauto | tauto | destruct k; tauto | tauto].
+  Qed.
+End DeclProofs.
